@@ -1,7 +1,8 @@
 /* qq-rec: stand-in for qmail-queue ($QMAILQUEUE).  Records message (fd 0), envelope (fd 1),
    uid and pid under $NQV_REC, then follows $NQV_QQ_PLAN:
      exit=N            read everything, exit N (default exit=0)
-     err=TEXT          write TEXT to fd 6 and exit 82 (custom error protocol of qmail.c)
+     err=TEXT          write TEXT to fd 6 and exit 82 (custom error protocol of qmail.c); with
+                       NQV_QQ_ERRSPLIT=K in two writes, K bytes first
      sig=N             read everything, then die by signal N
      stop=K,exit=N     stop reading the message after K bytes, exit N
      tee               after recording, exec $NQV_HOME/bin/qmail-queue on copies of the streams */
@@ -76,7 +77,14 @@ int main(void)
     _exit(120);
   }
   close(m); close(e);
-  if (!strncmp(plan, "err=", 4)) { write(6, plan + 4, strlen(plan + 4)); _exit(82); }
+  if (!strncmp(plan, "err=", 4)) {
+    /* NQV_QQ_ERRSPLIT=K: the text is written in two pieces (K bytes, a pause, the rest), as a program that
+       builds its answer from several writes would */
+    const char *t = plan + 4, *sp = getenv("NQV_QQ_ERRSPLIT"); size_t l = strlen(t), k = sp ? (size_t) atol(sp) : 0;
+    if (k > 0 && k < l) { write(6, t, k); usleep(40000); write(6, t + k, l - k); }
+    else write(6, t, l);
+    _exit(82);
+  }
   if (!strncmp(plan, "sig=", 4)) { signal(atoi(plan + 4), SIG_DFL); kill(getpid(), atoi(plan + 4)); pause(); }
   if (strstr(plan, "exit=")) x = atoi(strstr(plan, "exit=") + 5);
   _exit(x);
